@@ -20,7 +20,7 @@ import numpy as np
 from hypothesis import strategies as st
 
 from tqv import gen
-from tqv.core import Inconclusive, SubCheck, Violation, canon, req
+from tqv.core import Inconclusive, SubCheck, Violation, canon, req, unlisted_rejection
 from tqv.machine import HistorySpec
 
 # caller-owned arrays handed to the library must come back unchanged (see tqv/purity.py)
@@ -215,7 +215,7 @@ def check_unitary(case):
             out = random_unitary([d, case["d2"]], real, seed=seed)
         except ValueError:
             return
-        raise Violation(f"random_unitary([{d}, {case['d2']}]) returned an array of shape {np.shape(out)} instead of rejecting a non-square space", "unitary:nonsquare-accepted")
+        unlisted_rejection(f"random_unitary([{d}, {case['d2']}]) returned an array of shape {np.shape(out)} instead of rejecting a non-square space", "unitary:nonsquare-accepted")
     dim = [d, d] if case["form"] == "list" else d
     u = random_unitary(dim, real, seed) if case["pos"] else random_unitary(dim=dim, is_real=real, seed=seed)
     u = np.asarray(u)
@@ -711,7 +711,7 @@ def check_bad_priors(case):
         fn(inputs, arg)
     except ValueError:
         return
-    raise Violation(f"{fn.__name__} accepted a prior vector with defect '{bad}' (len {len(q)} for {n} states, sum {sum(q):.4f}); a ValueError is documented", f"{case['which']}:bad-priors-accepted:{'len' if bad in ('short', 'long') else 'sum'}")
+    unlisted_rejection(f"{fn.__name__} accepted a prior vector with defect '{bad}' (len {len(q)} for {n} states, sum {sum(q):.4f}); a ValueError is documented", f"{case['which']}:bad-priors-accepted:{'len' if bad in ('short', 'long') else 'sum'}")
 
 
 def _popt_interval(rhos, p):
@@ -880,7 +880,7 @@ def check_measure(case):
                 measure(rho, arg, state_update=True)
             except ValueError:
                 return
-            raise Violation(f"measure(state_update=True) accepted Kraus operators with sum K^dagger K = I + {dev:.3f} (full-rank state, all outcomes possible); a ValueError is documented", "measure:incomplete-accepted")
+            unlisted_rejection(f"measure(state_update=True) accepted Kraus operators with sum K^dagger K = I + {dev:.3f} (full-rank state, all outcomes possible); a ValueError is documented", "measure:incomplete-accepted")
     out = measure(rho, arg, state_update=update)
     req(isinstance(out, list) and len(out) == len(ks), f"measure: {len(out)} outcomes for {len(ks)} operators", "measure:form")
     ps = [_cmp_outcome(o, k, rho, update, i in zero, d, i) for i, (o, k) in enumerate(zip(out, ks))]
